@@ -182,8 +182,6 @@ def compute_overlap(
 
                 # Loop over primitives in shell0 (Cartesian)
                 for shell_scales0, a0 in zip(scales0[i0], shell0.exponents):
-                    a0_r0 = a0 * r0
-
                     # Loop over primitives in shell1 (Cartesian)
                     for shell_scales1, a1 in zip(scales1[i1], shell1.exponents):
                         at = a0 + a1
@@ -193,9 +191,11 @@ def compute_overlap(
                         # prepare some pre-factors to save FLOPS in inner loop
                         two_at = 2 * at
                         prefactor *= (np.pi / at) ** (3 / 2)
-                        rn = (a0_r0 + a1 * r1) / at
-                        rn_0 = rn - r0
-                        rn_1 = rn - r1
+                        # Position of the center of the product Gaussian relative to r0 and r1,
+                        # written in terms of r0 - r1, such that the result does not depend on
+                        # the absolute position of the centers.
+                        rn_0 = (-a1 / at) * rij
+                        rn_1 = (a0 / at) * rij
 
                         # Note that frompyfunc-ed functions return arrays with
                         # dtype=object. This is converted back to floats as
